@@ -97,6 +97,11 @@ fn alpha_padding_site(sc: &Scenario) -> &'static str {
             return "upsampled_channel";
         }
     }
+    if p["xyb"].as_bool().unwrap_or(false) {
+        // XYB images go through the per-pixel colour transform (SIMD body + scalar tail, whose
+        // split depends on where the region starts): known finding F28
+        return "xyb_colour_transform";
+    }
     "other"
 }
 
